@@ -197,6 +197,10 @@ def main(names):
     reported only if no live attempt equals the simulated observation."""
     out = {'histories': 0, 'mismatches': [], 'samples': [], 'live_attempts': 0}
     sims = {name: json.loads(json.dumps(run_sim(name))) for name in names}
+    # the simulation patched time.time / time.sleep in this process; subprocess.run(timeout=...) polls with time.sleep, which
+    # under load exceeded the virtual per-callback sleep budget and raised LoopBlocked (seen only in loaded sweeps)
+    from vt import clock
+    clock.uninstall()
     for name in names:
         attempts = []
         for k in range(3):
